@@ -106,6 +106,7 @@ TABLE = {
   ('C12_encode', 'CollObsP', 'ssz_encode_spec'), ('C12_bytes_len', 'CollObsP', 'ssz_bytes_len_spec'),
   ('C12_roundtrip', 'CollObsP', 'list_from_ssz_roundtrip'), ('C12_strict', 'CollObsP', 'list_from_ssz_strict_spec'),
   ('C12_vec_roundtrip', 'CollObsP', 'vector_from_ssz_roundtrip'), ('C12_enc_refines', 'RefineB', 'refines_OSszEnc_valid'), ('C12_dec_refines', 'RefineB', 'refines_OSszList'), ('C12_vec_strict', 'CollObsP', 'vector_from_ssz_strict_spec'),
+  ('C12_fixed_len_static', 'SszStaticP', 'ssz_fixed_len_spec'), ('C12_list_is_variable', 'SszStaticP', 'ssz_list_is_variable'), ('C12_vector_fixed_iff', 'SszStaticP', 'ssz_vector_fixed_iff'), ('C12_not_fixed_len', 'SszStaticP', 'ssz_not_fixed_len'),
  ],
  'C13': [
   ('C13_ser', 'CollObsP', 'serde_ser_spec'), ('C13_de_list', 'CollObsP', 'list_serde_de_ok'), ('C13_de_list_too_long', 'CollObsP', 'list_serde_de_fail'),
